@@ -19,6 +19,7 @@ type NativeResult struct {
 	PanicVal string   `json:"panic_value,omitempty"`
 	Diverged string   `json:"diverged,omitempty"`
 	Missing  bool     `json:"missing_harness,omitempty"`
+	Skipped  bool     `json:"skipped,omitempty"`
 }
 
 // ReplayMain runs every replay file listed in $VSYM_REPLAY_LIST (one path per line) against
@@ -49,6 +50,7 @@ func ReplayMain(harnesses map[string]func()) error {
 		}
 		p, v := Run(h)
 		r.Failed, r.Reached, r.Notes, r.Diverged = Out.Failed, Out.Reached, Out.Notes, Out.Diverged
+		r.Skipped = Out.Skipped
 		r.Panicked = p
 		if p {
 			r.PanicVal = fmt.Sprint(v)
